@@ -1,6 +1,7 @@
 import Enc.Model.ProtoRewrite
 import Enc.Spec.Protobuf
 import Enc.Lemmas.ProtoRewriteSpec
+import Enc.Lemmas.ProtoTemplateFlat
 /-!
 # C19 — proto rewriters replace exactly the templated fields
 Property theorems only.
@@ -91,5 +92,143 @@ theorem merge_sees_all_pieces (f : Nat) (v m : Bytes) (rest : List (Nat × WireV
     (rs : List (Nat × Rw)) (hv : parse (m.length + 1) m = some rest) :
     mergeInput (.embeddedMerge number len rs) f 2 v m = v ++ laterPieces f rest :=
   Lemmas.ProtoRewriteSpec.merge_sees_all_pieces f v m rest number len rs hv
+
+/-! ## `ParseRewriteTemplate`, `BitOr`, and the VALUE level (model: Enc/Model/ProtoTemplate.lean; specification:
+Enc/Spec/ProtoTemplate.lean; proofs: Enc/Lemmas/ProtoTemplate*.lean)
+
+`parseTemplate` mirrors `ParseRewriteTemplate` / `parseRewriteTemplate*` on the type as `proto.TypeOf` presents it (`TType`)
+and the template as a generic JSON value; it builds trees `RwT` = `Rw` + the `bitOr` leaf, run by `rewriteT`.
+The correspondence run (`proto.tmpltree`, `proto.tmplvalue`, harness/c19value.go) compares, on every generated template,
+the tree the REAL parser builds with the model's tree, the real output with `rewriteT`, and the decoded output with
+`Spec.ProtoTemplate.applyTemplate` (the full value-level specification: nested, repeated, map, BitOr).
+
+FULL STATEMENT (`template_rewrite_value`, checked by the correspondence run on every case, proved below for the flat
+fragment): for every message type `ty`, template `j` accepted by `parseTemplate`, rules, and input `b` with
+`Spec.Protobuf.decode ty b = some v`:  `rewriteT F (parseTemplate (typeOf ty) j rules) b = .ok out` and
+`norm (decode ty out) = norm (applyTemplate pf ty j rules v)`, untemplated records carried over in order.
+Proved: `template_rewrite_value_flat` — the complete chain `parseTemplate` → `rewriteT` → reference decoder for flat messages
+with ANY number of templated scalar fields (via the table form `table_rewrite_value`, the leaf encoders `template_leaf_value`,
+and the bookkeeping of `parseMembers` / `insertEnt`); `template_rewrite_value_partial` is its one-member instance with a
+closed-form result. Missing for the full statement: the leaf kinds float/double/fixed/zig-zag, and the nested / repeated / map cases
+(`embeddedMerge`, `replacement`), for which the record-level theorems above (`rewrite_spec`, `merge_sees_all_pieces`) hold
+but the step to values is only checked by the correspondence run.
+`template_not_modified`: trivial in a value model — `parseTemplate` and `rewriteT` are pure functions of immutable lists;
+that the Go code does not write to the template or input slices is checked in-process by every harness case. -/
+
+open Lemmas.ProtoTemplate in
+/-- the interpreter of template trees is `rewrite` on every tree without a `BitOr` leaf: all theorems above apply to the
+trees `parseTemplate` builds when no `BitOr` rule is given -/
+theorem template_tree_is_rw (fuel : Nat) (r : RwT) (r' : Rw) (inp : Bytes) (h : RwT.toRw? r = some r') :
+    rewriteT fuel r inp = rewrite fuel r' inp :=
+  Lemmas.ProtoTemplate.rewriteT_eq_rewrite fuel r r' inp h
+
+open Lemmas.ProtoTemplate Lemmas.ProtoRewriteSpec Spec.Protobuf in
+/-- **VALUE LEVEL, table form.** `fs` a message type whose fields are singular scalars (`flat`), `ents` a rewriter table whose
+entries are input independent (`TabSem`: entry `n` always emits records that set position `I n` to `E n`, or emits nothing),
+`b` ANY input the reference decoder accepts (any field order, repeated occurrences, unknown fields): the rewriter as coded
+returns a message the reference decoder accepts, whose value is the input's value with exactly the templated positions
+replaced (a field whose entry emits nothing reads as its zero value), every other position unchanged. -/
+theorem table_rewrite_value (fs : Fields) (hfs : flat fs = true) (len : Nat) (ents : List (Nat × Rw))
+    (I : Nat → Nat) (E : Nat → Option Val) (hok : entsOK len ents = true) (hne : hasEmbEnts ents = false)
+    (hT : TabSem fs (toSpecEnts ents) I E) (b : Bytes) (res : Vals)
+    (hsz : (20 + sizeMEnts ents) * (b.length + 1) < 2 ^ 64)
+    (hdec : decode (.struct fs) b = some (.struct res)) :
+    ∃ out res', (∀ fuel, b.length + fuelD (.message len ents) ≤ fuel → rewrite fuel (.message len ents) b = .ok out) ∧
+      decode (.struct fs) out = some (.struct res') ∧ res'.length = fs.length ∧
+      (∀ j, Untouched (toSpecEnts ents) I j → valsGet res' j = valsGet res j) ∧
+      (∀ n e, (n, e) ∈ toSpecEnts ents → valsGet res' (I n) = (E n).getD (valsGet (Spec.Protobuf.zeroFields fs) (I n))) :=
+  Lemmas.ProtoTemplate.message_rewrite_value fs hfs len ents I E hok hne hT b res hsz hdec
+
+open Lemmas.ProtoTemplate Lemmas.ProtoRewriteSpec Spec.Protobuf in
+/-- **leaf encoders** (`parseRewriteTemplateBool/Int32/Int64/Uint32/Uint64/String/Bytes` on plain fields; Uint32 as repaired by /repo 1e0f504): no denotation ⇒ the json
+error; zero value ⇒ no rewriter; any other value ⇒ a `raw` one-record message that the reference decoder reads back as
+that value -/
+theorem template_leaf_value (pf : PF) (t : Ty) (o : FieldOpt) (k : PKind) (hk : kindOf t o = some k) (f : Nat) (h0 : 0 < f)
+    (h1 : f < 2 ^ 61) (j : Model.Json.GV) (hlen : ∀ s, gvString j = some s → s.length < 2 ^ 64) :
+    match leafVal k j with
+    | none => parseLeaf pf k f j = .err "json"
+    | some x =>
+      (parseLeaf pf k f j = .ok none ∧ x = Spec.Protobuf.zeroOf t) ∨
+      (∃ b w, parseLeaf pf k f j = .ok (some (.raw b)) ∧ b.length ≤ 30 + strLen j ∧ Valid b [(f, w)] ∧
+        sdec t o w = some x) :=
+  Lemmas.ProtoTemplate.leaf_sem pf t o k hk f h0 h1 j hlen
+
+open Lemmas.ProtoTemplate Spec.Protobuf in
+/-- **`template_rewrite_value`, flat messages, ANY number of templated scalar fields.** `fs` a Go message type whose fields
+are singular scalars, `tfs` what TypeOf presents for it (`PresOK`: every named field is a singular scalar of a proved kind —
+bool, int32, int64, uint32, uint64, string, bytes, plain wire form — known to the reference decoder under the same number;
+names determine numbers), `ms` the members of the template object (distinct keys, as the json decoder delivers them). If
+`ParseRewriteTemplate` accepts the template (`tree`), then on EVERY input `b` the reference decoder accepts (any field order,
+repeated occurrences, unknown fields) the rewriter returns `out`, the reference decoder accepts `out`, every templated field
+reads as the value its member denotes, and every other position is unchanged. -/
+theorem template_rewrite_value_flat (pf : PF) (fs : Fields) (hfs : flat fs = true) (tfs : TFields) (hP : PresOK fs tfs)
+    (ms : Model.Json.GMs) (hnd : KeysNodup ms)
+    (hstr : ∀ k jv s, GMem k jv ms → gvString jv = some s → s.length < 2 ^ 64)
+    (fuel : Nat) (hfuel : gmLen ms + 4 ≤ fuel) (tree : RwT)
+    (hparse : parseTemplate pf fuel (.msg tfs) (.obj ms) [] = .ok tree)
+    (b : Bytes) (res : Vals) (hsz : (20 + tmplSize ms) * (b.length + 1) < 2 ^ 64)
+    (hdec : decode (.struct fs) b = some (.struct res)) :
+    ∃ out res', (∀ F, b.length + gmLen ms + 4 ≤ F → rewriteT F tree b = .ok out) ∧
+      decode (.struct fs) out = some (.struct res') ∧ res'.length = fs.length ∧
+      (∀ k jv n kind i o t, GMem k jv ms → lookupFieldByName tfs k = some (n, false, .prim kind) →
+        findField fs n = some (i, o, t) → ∃ x, leafVal kind jv = some x ∧ valsGet res' i = x) ∧
+      (∀ j, (∀ k jv n kind i o t, GMem k jv ms → lookupFieldByName tfs k = some (n, false, .prim kind) →
+        findField fs n = some (i, o, t) → i ≠ j) → valsGet res' j = valsGet res j) :=
+  Lemmas.ProtoTemplate.template_rewrite_value_flat pf fs hfs tfs hP ms hnd hstr fuel hfuel tree hparse b res hsz hdec
+
+open Lemmas.ProtoTemplate Spec.Protobuf in
+/-- **END TO END (partial: one templated scalar field of a flat message).** The template `{k: jv}` names field `number` of
+kind `kind` (as TypeOf presents it), which the reference decoder knows at position `i` with Go type `t`; `jv` denotes `x`.
+Then `ParseRewriteTemplate` succeeds, and on EVERY input the reference decoder accepts the rewriter returns a message that
+decodes to the input's value with position `i` replaced by `x` — nothing else changed. -/
+theorem template_rewrite_value_partial (pf : PF) (fs : Fields) (hfs : flat fs = true) (tfs : TFields) (k : Bytes)
+    (jv : Model.Json.GV) (number i : Nat) (o : FieldOpt) (t : Ty) (kind : PKind)
+    (hname : lookupFieldByName tfs k = some (number, false, .prim kind))
+    (hfind : findField fs number = some (i, o, t)) (hkind : kindOf t o = some kind)
+    (h0 : 0 < number) (h1 : number < 2 ^ 61) (hlen : ∀ s, gvString jv = some s → s.length < 2 ^ 32)
+    (x : Val) (hx : leafVal kind jv = some x)
+    (b : Bytes) (res : Vals) (hb : b.length < 2 ^ 24)
+    (hdec : decode (.struct fs) b = some (.struct res)) (fuel : Nat) :
+    ∃ tree out, parseTemplate pf (fuel + 4) (.msg tfs) (.obj (.cons k jv .nil)) [] = .ok tree ∧
+      (∀ F, b.length + 8 ≤ F → rewriteT F tree b = .ok out) ∧
+      decode (.struct fs) out = some (.struct (valsSet res i x)) :=
+  Lemmas.ProtoTemplate.template_rewrite_value_single pf fs hfs tfs k jv number i o t kind hname hfind hkind h0 h1 hlen x hx
+    b res hb hdec fuel
+
+open Lemmas.ProtoTemplate in
+/-- **template_rejects (1)**: a template naming a field the message type does not have is never accepted — whatever the
+other members, the rules and the fuel (Go: "rewrite template contained an invalid field named …") -/
+theorem template_rejects_unknown_field (pf : PF) (fs : TFields) (f : Nat) (ms : Model.Json.GMs) (rules : List Rules)
+    (fuel : Nat) (r : RwT) (hk : keysKnown fs ms = false) : parseStruct pf fuel fs f (.obj ms) rules ≠ .ok r :=
+  Lemmas.ProtoTemplate.parseStruct_unknown_rejected pf fs f ms rules fuel r hk
+
+/-- **template_rejects (2)**: a template that is not a JSON object (or null) is never accepted; (3) a non-message type is
+rejected. (A member of the wrong JSON kind / out of range: `template_leaf_value`, case `none`.) -/
+theorem template_rejects_nonobject (pf : PF) (fs : TFields) (f : Nat) (j : Model.Json.GV) (rules : List Rules) (fuel : Nat)
+    (r : RwT) (hj : gvObj j = none) : parseStruct pf fuel fs f j rules ≠ .ok r :=
+  Lemmas.ProtoTemplate.parseStruct_nonobject_rejected pf fs f j rules fuel r hj
+theorem template_rejects_nonstruct (pf : PF) (fuel : Nat) (t : TType) (j : Model.Json.GV) (rules : List Rules)
+    (ht : ∀ fs, t ≠ .msg fs) : parseTemplate pf fuel t j rules = .err "nonStruct" :=
+  Lemmas.ProtoTemplate.parseTemplate_nonstruct pf fuel t j rules ht
+
+/-- **bitor_value**: `BitOr[int64]` on a plain int64 field, `BitOr[uint64]` on a plain uint64 field: the field is rewritten
+to `old ||| mask`; an absent field counts as 0 -/
+theorem bitor_value_int64 (mask old : BitVec 64) (f : Nat) :
+    bitOrRewrite .i64 mask .int64 f (encodeVarint old) = .ok (fieldVarint f (old ||| mask)) :=
+  Lemmas.ProtoTemplate.bitor_int64 mask old f
+theorem bitor_value_uint64 (mask old : BitVec 64) (f : Nat) :
+    bitOrRewrite .u64 mask .uint64 f (encodeVarint old) = .ok (fieldVarint f (old ||| mask)) :=
+  Lemmas.ProtoTemplate.bitor_uint64 mask old f
+theorem bitor_value_absent (mask : BitVec 64) (f : Nat) :
+    bitOrRewrite .i64 mask .int64 f [] = .ok (fieldVarint f mask) :=
+  Lemmas.ProtoTemplate.bitor_absent mask f
+
+/-- **negative witness (known finding `proto-bitor-zigzag-fixed`)**: on a zig-zag field the code ORs the mask into the
+zig-zag IMAGE and zig-zags again; a `sint64` field holding 3 with mask 1 does not become `3 ||| 1` -/
+theorem bitor_zigzag_wrong :
+    ∃ (old mask : BitVec 64) (f : Nat) (out : BitVec 64),
+      bitOrRewrite .i64 mask .sint64 f (encodeVarint (encodeZigZag64 old)) = .ok (fieldVarint f out) ∧
+      decodeZigZag64 out ≠ old ||| mask :=
+  Lemmas.ProtoTemplate.bitor_sint64_wrong
 
 end Enc.Props.C19
